@@ -12,6 +12,7 @@ import BV.C19.SessionLemmas
 import BV.C19.EllswiftLemmas
 import BV.C19.EllswiftExample
 import BV.C19.EllswiftRefine
+import BV.C19.EllswiftBytes
 import BV.Generated.C19
 namespace BV.C19
 open BV.C19.Spec BV.Aead BV.Hex
@@ -299,6 +300,15 @@ theorem xswiftec_inv_correct_model [Fact (Nat.Prime Field.p)]
     (h : Ellswift.xswiftecInv Ellswift.natOps u x case = some t) :
     Ellswift.xswiftec Ellswift.natOps u t = some x :=
   Ellswift.Refine.xswiftec_inv_correct_nat hg u x t case hu hu0 hx hcurve h
+
+/-- byte level: the 64-byte encoding bytes(u) ‖ bytes(t) that `EllswiftCreate`'s loop writes for a
+successful draw (u, case) is decoded by the peer (`EllswiftECDHXOnly`'s XSwiftEC step) to x -/
+theorem ellswift_encoding_decodes [Fact (Nat.Prime Field.p)] (hg : ∀ a : ZMod Field.p, a ^ 3 + 7 ≠ 0)
+    (u x t : Nat) (case : Nat) (hu : u < Field.p) (hu0 : u ≠ 0) (hx : x < Field.p)
+    (hcurve : ∃ y : Nat, y * y % Field.p = (x ^ 3 + 7) % Field.p)
+    (h : Ellswift.xswiftecInv Ellswift.natOps u x case = some t) :
+    Ellswift.decode (BV.Hex.natBE u 32 ++ BV.Hex.natBE t 32) = some x :=
+  Ellswift.Refine.decode_encode hg u x t case hu hu0 hx hcurve h
 
 /-- the hypotheses of `xswiftec_inv_correct` are satisfiable (the field with 13 elements: c = 6,
 no root of x³ + 7), and the theorem applies to a concrete encoding there -/
